@@ -59,6 +59,16 @@ theorem dropWhile_append_stop {p : Char → Bool} {l : List Char} {x : Char} {t 
       simp only [List.cons_append, List.dropWhile_cons, hc, if_true]
       exact ih (fun d hd => h d (by simp [hd]))
 
+theorem mem_takeWhile_true {p : Char → Bool} {x : Char} : ∀ {l : List Char}, x ∈ l.takeWhile p → p x = true
+  | [], h => by simp at h
+  | c :: r, h => by
+      simp only [List.takeWhile_cons] at h
+      split at h
+      · rcases List.mem_cons.mp h with rfl | h'
+        · assumption
+        · exact mem_takeWhile_true h'
+      · simp at h
+
 theorem takeWhile_length_le (p : Char → Bool) (l : List Char) : (l.takeWhile p).length ≤ l.length := by
   induction l with
   | nil => simp
